@@ -766,7 +766,10 @@ where
         // visitor.visit_byte_buf(self.parse_byte_buf()?)
         match self.non_native_type {
             None => visitor.visit_byte_buf(self.parse_binary()?),
-            Some(NonNativeType::LazyValue) => self.reader.forward_read_byte_buf(visitor),
+            Some(NonNativeType::LazyValue) => {
+                self.non_native_type = None;
+                self.reader.forward_read_byte_buf(visitor)
+            }
             _ => unreachable!("Only Binary and LazyValue are expected in deserialize_byte_buf"),
         }
     }
